@@ -5,10 +5,12 @@ WT=$1; ID=$2
 cd $WT || exit 2
 OUT=/verif/seeded/$ID; mkdir -p $OUT
 git -C $WT diff -- . ':(exclude)MUTANT' > /tmp/confirm_$ID.diff
-echo "== patch applies on clean checkout?"; (git -C $WT stash -q -- $(git -C $WT diff --name-only) && git -C $WT apply --check MUTANT/patch.diff && echo yes; git -C $WT stash pop -q)
+FILES=$(grep '^+++ b/' MUTANT/patch.diff | sed 's#^+++ b/##')
+# never use git stash here: the stash is shared by all worktrees of /repo
+echo "== patch applies on clean checkout?"; git -C $WT checkout -- $FILES && git -C $WT apply --check MUTANT/patch.diff && echo yes; git -C $WT apply MUTANT/patch.diff
 echo "== tests with change"; make -C $WT check -j16 > /tmp/confirm_$ID.tests.log 2>&1; T=$?; N=$(grep -h "OK \]" $WT/tests/cache_fetch/gtest.log $WT/tests/connection_scan_algorithm/csa_test.log | wc -l); F=$(grep -h "FAILED  \]" $WT/tests/cache_fetch/gtest.log $WT/tests/connection_scan_algorithm/csa_test.log | wc -l); echo "make rc=$T passed=$N failed=$F"
 echo "== demo with change"; bash MUTANT/demo/run.sh $WT > /tmp/confirm_$ID.demo_with.log 2>&1; DW=$?; echo "rc=$DW"; tail -3 /tmp/confirm_$ID.demo_with.log
-echo "== demo without change"; FILES=$(git -C $WT diff --name-only -- . ':(exclude)MUTANT'); git -C $WT stash -q -- $FILES; bash MUTANT/demo/run.sh $WT > /tmp/confirm_$ID.demo_without.log 2>&1; DO=$?; echo "rc=$DO"; tail -3 /tmp/confirm_$ID.demo_without.log; git -C $WT stash pop -q
+echo "== demo without change"; git -C $WT checkout -- $FILES; bash MUTANT/demo/run.sh $WT > /tmp/confirm_$ID.demo_without.log 2>&1; DO=$?; echo "rc=$DO"; tail -3 /tmp/confirm_$ID.demo_without.log; git -C $WT apply MUTANT/patch.diff
 cp MUTANT/patch.diff $OUT/patch.diff; rm -rf $OUT/demo; cp -r MUTANT/demo $OUT/demo
 python3 - <<PY
 import json
